@@ -61,6 +61,11 @@ def streams_for(prop):
         from fractions import Fraction
         S.append(dict(name="dsm", gen=gen_dsm.gen_dsm, impl=impl_dsm.run, oracle=ref_dsm.CHECKS[prop],
                       mode="spec", abs_tol=Fraction(1, 10 ** 9)))
+    elif prop == "C02":
+        import gen_system
+        import impl_system
+        import ref_system
+        S.append(dict(name="system", gen=gen_system.gen_system, impl=impl_system.run, oracle=ref_system.check_case))
     elif prop in ("C13", "C15"):
         import gen_history
         import ref_history
@@ -91,6 +96,7 @@ PROPS = {
     "C13": dict(title="shape invariant, failed calls change nothing"),
     "C15": dict(title="inputs untouched, results independent"),
     "C14": dict(title="dimension sets as ordered sets"),
+    "C02": dict(title="mass-balance and flow checks"),
     "C03": dict(title="stocks conserve mass"),
     "C08": dict(title="survival tables"),
     "C09": dict(title="cohort tables"),
